@@ -70,3 +70,27 @@ func VerifExtNoPanic(args []string) {
 		vReach("value")
 	}
 }
+
+func init() {
+	verifHarness["VerifRegDiffExt"] = VerifRegDiffExt
+}
+
+// VerifRegDiffExt: registers on and off are indistinguishable (eval.VerifRegDiff) for sessions that call extension
+// functions - eval(), in particular, resolves names at run time. a, b: all int64. args: inputs...
+func VerifRegDiffExt(args []string) {
+	verifExtState()
+	vals := map[string]object.Object{}
+	all := strings.Join(args, "\n")
+	for _, n := range []string{"a", "b"} {
+		if eval.VerifUsesIdent(all, n) {
+			vals[n] = object.Integer{Value: vInt64(n)}
+		}
+	}
+	diffs, completed := eval.VerifRegDiffVals(args, vals)
+	for _, d := range diffs {
+		vAssert(false, d)
+	}
+	if completed > 0 {
+		vReach("input completed")
+	}
+}
